@@ -43,19 +43,32 @@ def cyclic(edges):
             else: state[n] = 2; stack.pop()
     return False
 
+def xmlns_write(GG, uri):
+    """the second public way to write a namespace: opcua_tools.create_nodeset2_file on the graph's tables, here with the caller's own xmlns declarations"""
+    from opcua_tools.nodeset_generator import create_nodeset2_file
+    s = io.StringIO()
+    create_nodeset2_file(nodes=GG.nodes.copy(), references=GG.references, models=GG.models, namespaces=list(GG.namespaces), serialize_namespace=GG.namespaces.index(uri),
+                         filename_or_stringio=s, xmlns_dict={"xsd": "http://www.w3.org/2001/XMLSchema", None: "http://opcfoundation.org/UA/2011/03/UANodeSet.xsd", "vendor": "urn:vendor:tool"},
+                         last_modified=writeprops.T0, publication_date=writeprops.T0)
+    return s.getvalue()
+
 def operations(rng, G, g, prev=()):
     """a random read-only operation as (name, thunk)"""
     from opcua_tools import navigation as nav
     uris = [u for u in g.uris if u in G.namespaces]
     names = sorted(set(G.nodes["BrowseName"]))
     objs = sorted(set(G.nodes.loc[G.nodes["NodeClass"] == "UAObject", "BrowseName"]))
-    k = rng.choice(["write", "write", "write", "norm_nodes", "norm_refs", "lookup", "lookup", "typed_lookup", "typed_lookup", "closure", "relatives", "paths", "neighbours", "circular", "instances", "browsenames", "classes", "selector", "subtypes"])
+    k = rng.choice(["write", "write", "write", "norm_nodes", "norm_refs", "lookup", "lookup", "typed_lookup", "typed_lookup", "closure", "relatives", "paths", "neighbours", "circular", "instances", "browsenames", "classes", "selector", "subtypes", "write_xmlns"])
     uri = rng.choice(uris)
     if k == "write":
         inc = rng.random() < 0.6; nv = rng.choice([None, None, "7.7.7", "8.0"])
         def f():
             s = io.StringIO(); G.write_nodeset(s, uri, include_outgoing_instance_level_references=inc, last_modified=writeprops.T0, publication_date=writeprops.T0, new_model_version=nv); return s.getvalue()
         return ("write", uri, inc, nv), f
+    if k == "write_xmlns":
+        u1 = G.namespaces[1] if len(G.namespaces) > 1 and G.namespaces[1] in uris else None
+        if u1 is None: return operations(rng, G, g, prev)
+        return ("write_xmlns", u1), lambda: xmlns_write(G, u1)
     if k == "norm_nodes": u = rng.choice([None, uri]); return ("norm_nodes", u), lambda: G.get_normalized_nodes_df(u)
     if k == "norm_refs": u = rng.choice([None, uri]); return ("norm_refs", u), lambda: G.get_normalized_references_df(u)
     # look-ups prefer names that several nodes carry and the name an earlier look-up used: an answer must not depend on what was asked before
@@ -207,6 +220,8 @@ def check(ctx):
             wuris = [u for u in G.namespaces[1:] if u in g.uris]
             if len(wuris) >= 2 and ci % 2 == 0:
                 opening = opening + [("write", u, True, None) for u in wuris] + ([("write", u, False, None) for u in reversed(wuris)] if ci % 4 == 0 else [])
+            # the fixed first case starts with a write through create_nodeset2_file that brings its own xmlns declarations
+            if ci == 0 and len(G.namespaces) > 1 and G.namespaces[1] in g.uris: opening = [("write_xmlns", G.namespaces[1])] + opening
             if ci == 1: opening = [("lookup", "Obj1"), ("norm_nodes", None), ("norm_refs", None), ("lookup", "Obj2"), ("norm_nodes", g.uris[0]), ("write", g.uris[0], True, None)] + opening
             for step in range(n_ops + len(opening)):
                 st_before = rng.getstate()
@@ -214,6 +229,7 @@ def check(ctx):
                     od = opening[step]
                     def mk(GG, od=od):
                         if od[0] == "typed_lookup": return lambda: getattr(GG, od[2])(od[1])
+                        if od[0] == "write_xmlns": return lambda: xmlns_write(GG, od[1])
                         if od[0] == "write":
                             def f():
                                 s_ = io.StringIO(); GG.write_nodeset(s_, od[1], include_outgoing_instance_level_references=od[2], last_modified=writeprops.T0, publication_date=writeprops.T0, new_model_version=od[3]); return s_.getvalue()
@@ -238,7 +254,8 @@ def check(ctx):
                 out2 = run_op(thunk2)
                 if out != out2: ctx.fail("C15/result-depends-on-history:" + desc[0], case, "%r gave a different result after %d earlier operations" % (desc, step))
                 # the fixed first case: the writes of the opening sweep are also compared with the write of a fresh interpreter (process-wide state)
-                if ci == 0 and step < len(opening) and desc[0] == "write" and out[0] == "ok":
+                xmlns_pending = any(h[0] == "write_xmlns" for h in hist[:-1]) and not any(h[0] == "write" for h in hist[:-1][max(i_ for i_, h in enumerate(hist[:-1]) if h[0] == "write_xmlns"):])
+                if ((ci == 0 and step < len(opening)) or xmlns_pending) and desc[0] == "write" and out[0] == "ok" and desc[3] is None:
                     fp = fresh_process_write(paths, desc[1], desc[2])
                     if fp[0] == "ok" and ["value", repr(fp[1])] != out[1]:
                         ctx.fail("C15/result-depends-on-history:write", case, "%r after %d earlier operations differs from the document a fresh interpreter writes" % (desc, step))
